@@ -78,6 +78,21 @@ class C10(F.PropCheck):
         evs += self.ticks(rng, need, style, sensor, maxn=6000)
         return evs, ['task-rs', 'asymmetric-times', 'margin%d' % margin, 'to-end-stop' if target in (0, 100) else 'inside']
 
+    def fam_resend(self, rng, tier):
+        """the same direction is requested again and again (every 0.5 .. 1.9 s, for more than 11 minutes) while the motor sensor stays dead:
+        a re-sent command for the output that is already energised must not postpone the 10-minute cut-off"""
+        af = rng.choice([1, 1, 1, 0]); d = rng.choice([1, 2])
+        evs = [self.cfg(af=af, rf=rng.randrange(2), pos0=0, boot=rng.choice([1, 1, rng.randrange(1, 2**32)]))] + [('CB', [10000, 0], b'')] * 3
+        t = 0; tags = ['resend-same-direction', 'af%d' % af]
+        while t < rng.choice([700_000_000, 660_000_000]):
+            evs.append(('RELAY', [d, rng.randrange(2), 0], b''))
+            gap = rng.randrange(500_000, 1_900_001); u = 0
+            while u < gap:
+                dt = min(rng.choice([250000, 200000, 100000]), gap - u); evs.append(('CB', [dt, 0], b'')); u += dt
+            t += gap
+        evs += self.ticks(rng, 5_000_000, 'coarse', 0)
+        return evs, tags
+
     def fam_manual(self, rng, tier):
         full = rng.choice([500, 2000, 17300, rng.randrange(500, 5000)])
         margin = rng.choice([-1, 0, 5, 50, 100])
@@ -209,7 +224,7 @@ class C10(F.PropCheck):
         C09MOD.run_batches(self, ctx, makers, 'batched_thorough')
 
     def gen_cases(self, rng, n, tier, prefix=''):
-        fams = [(self.fam_task_rs, 30), (self.fam_task_asym, 6), (self.fam_manual, 12), (self.fam_ten_minutes, 3), (self.fam_autocal, 12), (self.fam_autocal_stuck, 2), (self.fam_interrupt, 12),
+        fams = [(self.fam_task_rs, 30), (self.fam_task_asym, 6), (self.fam_resend, 2), (self.fam_manual, 12), (self.fam_ten_minutes, 3), (self.fam_autocal, 12), (self.fam_autocal_stuck, 2), (self.fam_interrupt, 12),
                 (self.fam_fb, 10), (self.fam_random, 21)]
         tot = sum(w for _, w in fams); cases = []
         for i in range(n):
@@ -287,7 +302,10 @@ class C10(F.PropCheck):
                                        bool(af and prev['time1'] == 0 and prev['time2'] == 0))
                     elif rise[which] is not None:
                         judge(which, tg, False); rise[which] = None
-            if e[0] != 'CB': last_cmd = t
+            # a command restarts the clock of the bound only if it may legitimately restart the run-time counter: a RELAY request for the
+            # direction that is already energised leaves counter, stamps and output alone (C10_set_relay_is_substep) and does not
+            same_dir = e[0] == 'RELAY' and ((e[1][0] == 2 and prev['up_on']) or (e[1][0] == 1 and prev['down_on'])) and not edges
+            if e[0] != 'CB' and not same_dir: last_cmd = t
             prev = st
         for which in (1, 2):
             if rise[which] is not None: judge(which, tl[-1][1], True)
@@ -403,7 +421,8 @@ class C10(F.PropCheck):
         m = re.search(r'\[calibrated=(\d) autocal_enabled=(\d) excess=(\d+) maxdt=(\d+)\]', what)
         if m and 'still on' not in what:
             # auto-calibration enabled, no movement sensed in the first 2 s: the run-time counter starts 2 s late
-            if m.group(1) == '0' and m.group(2) == '1' and int(m.group(3)) <= 2_000_000 + int(m.group(4)): return 'autocal-power-detect-delays-cutoff-2s'
+            # exactly: the callbacks of the first 2 s after the start stamp are not counted -> at most 2 s late (+ the relay busy-wait of the edge stamp)
+            if m.group(1) == '0' and m.group(2) == '1' and int(m.group(3)) <= 2_000_000 + 20_040: return 'autocal-power-detect-delays-cutoff-2s'
         return None
 
 CHECK = C10()
